@@ -1,5 +1,456 @@
-/- C17: statements in progress; this placeholder keeps the module buildable. -/
+/-
+C17 — matcher failures (and validation failures) fail the test and write nothing.
+
+Pure go-snaps glue (snaps/matchJSON.go:72-98, matchYAML.go:67-93, matchStandaloneJSON.go:44-70):
+the registry is bumped and the cleanup registered BEFORE validation; a validation error or a
+non-empty list of matcher errors goes to `handleError` and the function returns — no lookup,
+no create, no update, in every mode.
+
+Byte legend: 10 = "\n", 34 = '"', 40 = '(', 41 = ')', 32 = ' ', 45 = '-', 46 = '.',
+"match." = [109, 97, 116, 99, 104, 46], "✕ " = [226, 156, 149, 32].
+-/
 import GoSnaps.Model
+import GoSnaps.Driver
+import GoSnaps.Props.C03
+import GoSnaps.Props.C15
 namespace GoSnaps.C17
-theorem handleError_counts (w : World) (msg : Text) : (handleError w msg).1.events.erred = w.events.erred + 1 := rfl
+
+open GoSnaps
+
+/-! ## 0. what the two entry points do before they look at `pre` -/
+
+/-- the world after `getTestID` + `t.Cleanup(...)` of `matchJSON` / `matchYAML` / `matchSnapshot` -/
+def entered (w : World) (c : Cfg) (caller tName : Text) (texec : Nat) : World :=
+  let k : RegKey := ((snapshotPath c caller tName false).1, tName)
+  { (regBump w k).1 with pending := (texec, .reg k) :: w.pending }
+
+/-- the world after `standaloneTestsRegistry.getTestID` + `t.Cleanup(...)` -/
+def enteredSA (w : World) (c : Cfg) (caller tName : Text) (texec : Nat) : World :=
+  let g : Text := (snapshotPath c caller tName true).1
+  { (sregBump w g).1 with pending := (texec, .sreg g) :: w.pending }
+
+/-- entering changes registries and the pending list only -/
+theorem entered_frame (w : World) (c : Cfg) (caller tName : Text) (texec : Nat) :
+    (entered w c caller tName texec).fs = w.fs ∧ (entered w c caller tName texec).events = w.events ∧
+    (entered w c caller tName texec).env = w.env ∧ (entered w c caller tName texec).cfgs = w.cfgs ∧
+    (entered w c caller tName texec).skipped = w.skipped ∧
+    (entered w c caller tName texec).srunning = w.srunning ∧
+    (entered w c caller tName texec).scleanup = w.scleanup := ⟨rfl, rfl, rfl, rfl, rfl, rfl, rfl⟩
+
+theorem enteredSA_frame (w : World) (c : Cfg) (caller tName : Text) (texec : Nat) :
+    (enteredSA w c caller tName texec).fs = w.fs ∧ (enteredSA w c caller tName texec).events = w.events ∧
+    (enteredSA w c caller tName texec).env = w.env ∧ (enteredSA w c caller tName texec).cfgs = w.cfgs ∧
+    (enteredSA w c caller tName texec).skipped = w.skipped ∧
+    (enteredSA w c caller tName texec).running = w.running ∧
+    (enteredSA w c caller tName texec).cleanup = w.cleanup := ⟨rfl, rfl, rfl, rfl, rfl, rfl, rfl⟩
+
+/-- **the failing call, in closed form**: either the model does not cover the call (the
+relative path could not be computed: `unsupported`) or the call is exactly
+`handleError msg` on the entered world. -/
+theorem matchEntry_error_eq (w : World) (c : Cfg) (caller tName : Text) (texec : Nat) (cmp : Cmp)
+    (msg : Text) :
+    matchEntry w c caller tName texec cmp (.error msg) =
+      if (snapshotPath c caller tName false).2 = none
+      then unsup (entered w c caller tName texec) "idFmt/rel"
+      else handleError (entered w c caller tName texec) msg := by
+  unfold matchEntry entered
+  generalize snapshotPath c caller tName false = sp
+  obtain ⟨snapPath, rel?⟩ := sp
+  simp only [C03.testID_eq]
+  cases rel? <;> simp [regBump]
+
+theorem matchStandalone_error_cases (w : World) (c : Cfg) (caller tName : Text) (texec : Nat)
+    (msg : Text) :
+    matchStandalone w c caller tName texec (.error msg) = handleError (enteredSA w c caller tName texec) msg ∨
+    ∃ why, matchStandalone w c caller tName texec (.error msg) = unsup (enteredSA w c caller tName texec) why := by
+  unfold matchStandalone enteredSA
+  generalize snapshotPath c caller tName true = sp
+  obtain ⟨generic, grel?⟩ := sp
+  dsimp only
+  split
+  · exact .inr ⟨_, rfl⟩
+  · split
+    · exact .inl rfl
+    · exact .inr ⟨_, rfl⟩
+
+/-! ## 1. exactly one failure -/
+
+/-- `MatchJSON` / `MatchYAML` whose validation or matchers failed with message `msg`: the test
+receives exactly one `t.Error(msg)`, the `erred` counter moves by one, no other counter moves,
+nothing is printed.  (`hs`: the model covers the call.) -/
+theorem matcher_error_one_failure (w : World) (c : Cfg) (caller tName : Text) (texec : Nat)
+    (cmp : Cmp) (msg : Text)
+    (hs : (matchEntry w c caller tName texec cmp (.error msg)).2.unsupported = none) :
+    (matchEntry w c caller tName texec cmp (.error msg)).2.events = [.error msg] ∧
+    (matchEntry w c caller tName texec cmp (.error msg)).1.events =
+      { w.events with erred := w.events.erred + 1 } ∧
+    (matchEntry w c caller tName texec cmp (.error msg)).2.stdout = [] := by
+  rw [matchEntry_error_eq] at hs ⊢
+  split at hs
+  · simp [unsup] at hs
+  · rename_i h; simp only [h, ↓reduceIte]; exact ⟨rfl, rfl, rfl⟩
+
+/-- the model covers the call exactly when the snapshot path has a relative form -/
+theorem matchEntry_error_supported_iff (w : World) (c : Cfg) (caller tName : Text) (texec : Nat)
+    (cmp : Cmp) (msg : Text) :
+    (matchEntry w c caller tName texec cmp (.error msg)).2.unsupported = none ↔
+      (snapshotPath c caller tName false).2 ≠ none := by
+  rw [matchEntry_error_eq]
+  split <;> simp_all [unsup, handleError]
+
+/-- the same for `MatchStandaloneJSON` -/
+theorem matcher_error_one_failure_standalone (w : World) (c : Cfg) (caller tName : Text)
+    (texec : Nat) (msg : Text)
+    (hs : (matchStandalone w c caller tName texec (.error msg)).2.unsupported = none) :
+    (matchStandalone w c caller tName texec (.error msg)).2.events = [.error msg] ∧
+    (matchStandalone w c caller tName texec (.error msg)).1.events =
+      { w.events with erred := w.events.erred + 1 } ∧
+    (matchStandalone w c caller tName texec (.error msg)).2.stdout = [] := by
+  rcases matchStandalone_error_cases w c caller tName texec msg with h | ⟨why, h⟩
+  · rw [h]; exact ⟨rfl, rfl, rfl⟩
+  · rw [h] at hs; simp [unsup] at hs
+
+/-! ## 2. nothing is written, in every mode -/
+
+/-- **No write, whatever the mode**: `env` (CI or not, any UPDATE_SNAPS) and `c.update`
+(unset, true, false) are universally quantified and do not appear in any hypothesis — the gates
+`shouldCreate` / `shouldUpdate` are never consulted.  Unconditional (also holds where the model
+answers `unsupported`). -/
+theorem matcher_error_no_write (w : World) (c : Cfg) (caller tName : Text) (texec : Nat)
+    (cmp : Cmp) (msg : Text) :
+    (matchEntry w c caller tName texec cmp (.error msg)).1.fs = w.fs ∧
+    (matchEntry w c caller tName texec cmp (.error msg)).2.writes = [] ∧
+    (matchEntry w c caller tName texec cmp (.error msg)).2.removed = [] := by
+  rw [matchEntry_error_eq]
+  split <;> exact ⟨rfl, rfl, rfl⟩
+
+theorem matcher_error_no_write_standalone (w : World) (c : Cfg) (caller tName : Text)
+    (texec : Nat) (msg : Text) :
+    (matchStandalone w c caller tName texec (.error msg)).1.fs = w.fs ∧
+    (matchStandalone w c caller tName texec (.error msg)).2.writes = [] ∧
+    (matchStandalone w c caller tName texec (.error msg)).2.removed = [] := by
+  rcases matchStandalone_error_cases w c caller tName texec msg with h | ⟨why, h⟩ <;>
+    (rw [h]; exact ⟨rfl, rfl, rfl⟩)
+
+/-- three modes on a world that already holds `[T - 1]` with body "x" in /a/__snapshots__/b_test.snap:
+update forced on (`Update(true)`, UPDATE_SNAPS=true), CI, and the default — the failing call
+leaves the file system identical and reports exactly the message; a second entry `[T - 2]`
+(creation allowed) is NOT created either -/
+example :
+    let file : Text := [10, 91, 84, 32, 45, 32, 49, 93, 10, 120, 10, 45, 45, 45, 10]
+    let path : Text := [47, 97, 47, 95, 95, 115, 110, 97, 112, 115, 104, 111, 116, 115, 95, 95, 47,
+      98, 95, 116, 101, 115, 116, 46, 115, 110, 97, 112]
+    let caller : Text := [47, 97, 47, 98, 95, 116, 101, 115, 116, 46, 103, 111]
+    (snapshotPath {} caller [84] false).1 = path ∧
+    ∀ m ∈ [(⟨false, "true"⟩, some true), (⟨true, "true"⟩, some true), (⟨false, ""⟩, none)],
+      let w : World := { env := m.1, fs := [(path, file)] }
+      let r := matchEntry w { update := m.2 } caller [84] 0 .raw (.error [109])
+      r.1.fs = [(path, file)] ∧ r.2.events = [.error [109]] ∧ r.2.writes = [] ∧ r.1.events.erred = 1 ∧
+      (matchEntry r.1 { update := m.2 } caller [84] 0 .raw (.error [109])).1.fs = [(path, file)] := by
+  decide +kernel
+
+/-- read as a statement about files: every path reads the same before and after -/
+theorem matcher_error_files_intact (w : World) (c : Cfg) (caller tName : Text) (texec : Nat)
+    (cmp : Cmp) (msg p : Text) :
+    fsRead (matchEntry w c caller tName texec cmp (.error msg)).1.fs p = fsRead w.fs p ∧
+    fsRead (matchStandalone w c caller tName texec (.error msg)).1.fs p = fsRead w.fs p := by
+  rw [(matcher_error_no_write w c caller tName texec cmp msg).1,
+    (matcher_error_no_write_standalone w c caller tName texec msg).1]
+  exact ⟨rfl, rfl⟩
+
+/-- what does NOT stay the same: only the registries / pending list (and the `erred` counter) -/
+theorem matcher_error_frame (w : World) (c : Cfg) (caller tName : Text) (texec : Nat)
+    (cmp : Cmp) (msg : Text) :
+    let w' := (matchEntry w c caller tName texec cmp (.error msg)).1
+    w'.env = w.env ∧ w'.cfgs = w.cfgs ∧ w'.skipped = w.skipped ∧
+    w'.srunning = w.srunning ∧ w'.scleanup = w.scleanup := by
+  rw [matchEntry_error_eq]
+  split <;> exact ⟨rfl, rfl, rfl, rfl, rfl⟩
+
+/-! ## 3. the ordinal is consumed -/
+
+theorem sregBump_snd (w : World) (g : Text) : (sregBump w g).2 = alGet w.srunning g + 1 := rfl
+
+theorem sregBump_srunning_same (w : World) (g : Text) :
+    alGet (sregBump w g).1.srunning g = alGet w.srunning g + 1 :=
+  C03.alGet_alSet_same _ _ _
+
+/-- **The registry is bumped exactly as for a successful call** (same `running`, same
+`cleanup`, both equal to what `getTestID` alone produces), the cleanup is registered, and the
+next call of the same test addresses slot k+1. -/
+theorem ordinal_consumed (w : World) (c : Cfg) (caller tName : Text) (texec : Nat) (cmp : Cmp)
+    (msg s : Text) :
+    let k : RegKey := ((snapshotPath c caller tName false).1, tName)
+    let w' := (matchEntry w c caller tName texec cmp (.error msg)).1
+    w'.running = (matchEntry w c caller tName texec cmp (.ok s)).1.running ∧
+    w'.cleanup = (matchEntry w c caller tName texec cmp (.ok s)).1.cleanup ∧
+    w'.running = (regBump w k).1.running ∧ w'.cleanup = (regBump w k).1.cleanup ∧
+    w'.pending = (texec, Pending.reg k) :: w.pending ∧
+    (regBump w' k).2 = (regBump w k).2 + 1 := by
+  intro k w'
+  obtain ⟨h1, h2, h3, h4⟩ := C03.failing_call_consumes_ordinal w c caller tName texec cmp msg s
+  exact ⟨h1, h3.trans h4.symm, h2, h3, (matchEntry_regs w c caller tName texec cmp (.error msg)).2.2,
+    C03.ordinal_after_failing_call w c caller tName texec cmp msg⟩
+
+/-- the same for the per-path registry of `MatchStandaloneJSON`: the file index `_k` is consumed -/
+theorem ordinal_consumed_standalone (w : World) (c : Cfg) (caller tName : Text) (texec : Nat)
+    (msg s : Text) :
+    let g : Text := (snapshotPath c caller tName true).1
+    let w' := (matchStandalone w c caller tName texec (.error msg)).1
+    w'.srunning = (matchStandalone w c caller tName texec (.ok s)).1.srunning ∧
+    w'.scleanup = (matchStandalone w c caller tName texec (.ok s)).1.scleanup ∧
+    w'.srunning = (sregBump w g).1.srunning ∧ w'.scleanup = (sregBump w g).1.scleanup ∧
+    w'.pending = (texec, Pending.sreg g) :: w.pending ∧
+    (sregBump w' g).2 = (sregBump w g).2 + 1 := by
+  intro g w'
+  obtain ⟨h1, h2, h3, h4⟩ := C03.failing_standalone_consumes_ordinal w c caller tName texec msg s
+  refine ⟨h1, h3.trans h4.symm, h2, h3, (matchStandalone_regs w c caller tName texec (.error msg)).2.2, ?_⟩
+  rw [sregBump_snd, h2, sregBump_srunning_same, sregBump_snd]
+
+/-- a failing call followed by a call of the same test: the second call is the SECOND slot
+(ordinal 2 from a fresh registry), not a retry of slot 1 -/
+example :
+    let w : World := { env := ⟨false, ""⟩ }
+    let c : Cfg := {}
+    let caller : Text := [47, 97, 47, 98, 95, 116, 101, 115, 116, 46, 103, 111]   -- "/a/b_test.go"
+    let k : RegKey := ((snapshotPath c caller [84] false).1, [84])
+    let w₁ := (matchEntry w c caller [84] 0 .raw (.error [120])).1
+    (regBump w k).2 = 1 ∧ (regBump w₁ k).2 = 2 ∧ w₁.fs = [] ∧ w₁.events.erred = 1 ∧
+    (matchEntry w c caller [84] 0 .raw (.error [120])).2.events = [.error [120]] := by
+  decide +kernel
+
+/-! ## 4. the message names every failing matcher -/
+
+/-- `match.<Matcher>("<Path>") - <Reason>` -/
+def piece (m p r : Text) : Text :=
+  [109, 97, 116, 99, 104, 46] ++ m ++ [40, 34] ++ p ++ [34, 41, 32, 45, 32] ++ r
+
+/-- one `fmt.Sprintf("\n%smatch.%s(\"%s\") - %s", errorSymbol, Matcher, Path, Reason)` -/
+def errLine (e : Text × Text × Text) : Text :=
+  nl :: Generated.go_errorSymbol ++ piece e.1 e.2.1 e.2.2
+
+/-- the `strings.Builder` after the loop (NO_COLOR: `colors.Fprint` writes the text as is) -/
+def errText (errs : List (Text × Text × Text)) : Text := (errs.map errLine).flatten
+
+/-- exactly the expression of `Driver.step`'s `ora doc merr` branch -/
+def matcherErrMsg (errs : List (Text × Text × Text)) : Option Text :=
+  (errs.mapM (fun (m, p, r) =>
+    sprintf Generated.matcherErrFmt [.s Generated.go_errorSymbol, .s m, .s p, .s r])).map List.flatten
+
+theorem matcherErrFmt_parse : parseFmt Generated.matcherErrFmt =
+    some [.lit [10], .verb 115, .lit [109, 97, 116, 99, 104, 46], .verb 115, .lit [40, 34], .verb 115,
+          .lit [34, 41, 32, 45, 32], .verb 115] := by decide
+
+theorem sprintf_matcherErr (m p r : Text) :
+    sprintf Generated.matcherErrFmt [.s Generated.go_errorSymbol, .s m, .s p, .s r] =
+      some (errLine (m, p, r)) := by
+  simp [sprintf, matcherErrFmt_parse, fmtPieces, fmtVerb, errLine, piece, nl]
+
+/-- the format string never fails on these operands: the message always exists and is `errText` -/
+theorem matcherErrMsg_eq (errs : List (Text × Text × Text)) : matcherErrMsg errs = some (errText errs) := by
+  unfold matcherErrMsg errText
+  have key : ∀ (f : Text × Text × Text → Option Text) (g : Text × Text × Text → Text),
+      (∀ x, f x = some (g x)) → ∀ l : List (Text × Text × Text), l.mapM f = some (l.map g) := by
+    intro f g hfg l
+    induction l with
+    | nil => rfl
+    | cons e es ih => rw [List.mapM_cons, hfg, ih]; rfl
+  have := key (fun (x : Text × Text × Text) =>
+      sprintf Generated.matcherErrFmt [.s Generated.go_errorSymbol, .s x.1, .s x.2.1, .s x.2.2]) errLine
+    (fun x => sprintf_matcherErr x.1 x.2.1 x.2.2) errs
+  simpa using congrArg (Option.map List.flatten) this
+
+theorem errText_append (a b : List (Text × Text × Text)) : errText (a ++ b) = errText a ++ errText b := by
+  simp [errText]
+
+/-- **Every error is named, in order**: for every position of `errs` (`errs = A ++ (m,p,r) :: B`)
+the message is `⟨message of A⟩ ++ "\n✕ " ++ match.m("p") - r ++ ⟨message of B⟩` — the pieces
+occur contiguously, in the order of `errs`, separated by the newline + error symbol. -/
+theorem errors_all_named (A B : List (Text × Text × Text)) (m p r : Text) :
+    matcherErrMsg (A ++ (m, p, r) :: B) =
+      some ((errText A ++ nl :: Generated.go_errorSymbol) ++ piece m p r ++ errText B) := by
+  rw [matcherErrMsg_eq]
+  simp [errText, errLine]
+
+/-- membership form: each error's text is a contiguous sub-list of the message -/
+theorem errors_all_named_mem (errs : List (Text × Text × Text)) (m p r : Text)
+    (h : (m, p, r) ∈ errs) :
+    ∃ msg pre post, matcherErrMsg errs = some msg ∧ msg = pre ++ piece m p r ++ post := by
+  obtain ⟨A, B, rfl⟩ := List.append_of_mem h
+  exact ⟨_, _, _, errors_all_named A B m p r, rfl⟩
+
+/-- a non-empty error list never produces an empty message (so `t.Error` is never called with "") -/
+theorem errText_ne_nil (errs : List (Text × Text × Text)) (h : errs ≠ []) : errText errs ≠ [] := by
+  cases errs with
+  | nil => exact absurd rfl h
+  | cons e es => simp [errText, errLine]
+
+theorem matcherErrMsg_ne_nil (errs : List (Text × Text × Text)) (h : errs ≠ []) :
+    ∃ msg, matcherErrMsg errs = some msg ∧ msg ≠ [] :=
+  ⟨_, matcherErrMsg_eq errs, errText_ne_nil errs h⟩
+
+/-- `match.Any("a") - x` then `match.Type("b") - y`:
+    "\n✕ match.Any(\"a\") - x\n✕ match.Type(\"b\") - y" -/
+example : matcherErrMsg [([65, 110, 121], [97], [120]), ([84, 121, 112, 101], [98], [121])] =
+    some [10, 226, 156, 149, 32, 109, 97, 116, 99, 104, 46, 65, 110, 121, 40, 34, 97, 34, 41, 32, 45, 32, 120,
+          10, 226, 156, 149, 32, 109, 97, 116, 99, 104, 46, 84, 121, 112, 101, 40, 34, 98, 34, 41, 32, 45, 32, 121] := by
+  decide +kernel
+
+/-! ## 5. the pipeline: no partially masked document escapes -/
+
+/-- a matcher error as go-snaps keeps it: (Matcher, Path, Reason) -/
+abbrev MErr := Text × Text × Text
+
+/-- matchJSON.go:72-100 / matchYAML.go:67-95: validate → apply matchers → if any error, the
+message; else the rendered document.  `valid` is gjson.Valid / json.Marshal / yaml.Unmarshal,
+`render` is `takeJSONSnapshot` / `takeYAMLSnapshot`; both parameters. -/
+def pipeline (valid : Text → Except Text Text) (ms : List (C15.Matcher MErr)) (render : Text → Text)
+    (input : Text) : Except Text Text :=
+  match valid input with
+  | .error e => .error e
+  | .ok j =>
+    let r := C15.applyMatchers ms j []
+    if r.2 ≠ [] then .error (errText r.2) else .ok (render r.1)
+
+/-- errors at the end of the fold ⇒ the pipeline yields the message, never a document: the
+documents produced by the matchers that succeeded (`r.1`) are not part of the result -/
+theorem no_partial_leak (valid : Text → Except Text Text) (ms : List (C15.Matcher MErr))
+    (render : Text → Text) (input j : Text) (hv : valid input = .ok j)
+    (herr : (C15.applyMatchers ms j []).2 ≠ []) :
+    pipeline valid ms render input = .error (errText (C15.applyMatchers ms j []).2) ∧
+    ∀ render', pipeline valid ms render' input = pipeline valid ms render input := by
+  simp [pipeline, hv, herr]
+
+/-- a matcher that fails on whatever document reaches it makes the final error list non-empty,
+wherever it stands in the list and whatever the other matchers do -/
+theorem failing_matcher_errors (ms : List (C15.Matcher MErr)) (m : C15.Matcher MErr) (hm : m ∈ ms)
+    (hf : ∀ d, (m d).2 ≠ []) (b : Text) (errs : List MErr) : (C15.applyMatchers ms b errs).2 ≠ [] := by
+  induction ms generalizing b errs with
+  | nil => cases hm
+  | cons x xs ih =>
+    simp only [C15.applyMatchers]
+    rcases List.mem_cons.mp hm with rfl | hm'
+    · simp only [hf b, ne_eq, not_false_eq_true, ↓reduceIte]
+      obtain ⟨more, h⟩ := C15.errors_accumulate xs b (errs ++ (m b).2)
+      rw [h]
+      have := hf b
+      cases hq : (m b).2 with
+      | nil => exact absurd hq this
+      | cons e es => simp
+    · split
+      · exact ih hm' _ _
+      · exact ih hm' _ _
+
+/-- **some matcher fails ⇒ `pre` is `.error`, whatever the successful matchers produced** -/
+theorem no_partial_leak_of_failing (valid : Text → Except Text Text) (ms : List (C15.Matcher MErr))
+    (render : Text → Text) (input j : Text) (hv : valid input = .ok j)
+    (m : C15.Matcher MErr) (hm : m ∈ ms) (hf : ∀ d, (m d).2 ≠ []) :
+    ∃ msg, pipeline valid ms render input = .error msg ∧ msg ≠ [] := by
+  have herr := failing_matcher_errors ms m hm hf j []
+  exact ⟨_, (no_partial_leak valid ms render input j hv herr).1, errText_ne_nil _ herr⟩
+
+/-- invalid input: the validation error, no matcher runs -/
+theorem pipeline_invalid (valid : Text → Except Text Text) (ms : List (C15.Matcher MErr))
+    (render : Text → Text) (input e : Text) (hv : valid input = .error e) :
+    pipeline valid ms render input = .error e := by
+  simp [pipeline, hv]
+
+/-- all matchers succeed ⇒ the rendered left-to-right composition -/
+theorem pipeline_all_succeed (valid : Text → Except Text Text) (ms : List (C15.Matcher MErr))
+    (render : Text → Text) (input j : Text) (hv : valid input = .ok j)
+    (h : ∀ m ∈ ms, ∀ d, (m d).2 = []) :
+    pipeline valid ms render input = .ok (render (ms.foldl (fun d m => (m d).1) j)) := by
+  simp [pipeline, hv, C15.all_succeed ms j h]
+
+/-- `ErrOnMissingPath(false)` on a missing path: the matcher returns the document untouched and
+no error — it is the identity step of the fold -/
+theorem missing_path_ignored (m : C15.Matcher MErr) (ms : List (C15.Matcher MErr)) (b : Text)
+    (errs : List MErr) (h : m b = (b, [])) :
+    C15.applyMatchers (m :: ms) b errs = C15.applyMatchers ms b errs := by
+  simp [C15.applyMatchers, h]
+
+/-- end to end: a failing matcher anywhere in the list ⇒ one failure, nothing written -/
+theorem failing_matcher_end_to_end (valid : Text → Except Text Text) (ms : List (C15.Matcher MErr))
+    (render : Text → Text) (input j : Text) (hv : valid input = .ok j)
+    (m : C15.Matcher MErr) (hm : m ∈ ms) (hf : ∀ d, (m d).2 ≠ [])
+    (w : World) (c : Cfg) (caller tName : Text) (texec : Nat) (cmp : Cmp) :
+    let r := matchEntry w c caller tName texec cmp (pipeline valid ms render input)
+    r.1.fs = w.fs ∧ r.2.writes = [] ∧ r.2.removed = [] ∧
+    (r.2.unsupported = none → ∃ msg, msg ≠ [] ∧ r.2.events = [.error msg]) := by
+  obtain ⟨msg, hp, hne⟩ := no_partial_leak_of_failing valid ms render input j hv m hm hf
+  intro r
+  have hr : r = matchEntry w c caller tName texec cmp (.error msg) := by simp only [r, hp]
+  rw [hr]
+  obtain ⟨a, b, c'⟩ := matcher_error_no_write w c caller tName texec cmp msg
+  exact ⟨a, b, c', fun hs => ⟨msg, hne, (matcher_error_one_failure w c caller tName texec cmp msg hs).1⟩⟩
+
+/-- three matchers on the document "d": the first appends "1", the second fails, the third
+appends "3".  The result is the second's error only; "d1", "d13" appear nowhere. -/
+example :
+    let m1 : C15.Matcher MErr := fun d => (d ++ [49], [])
+    let m2 : C15.Matcher MErr := fun d => (d ++ [50], [([65, 110, 121], [97], [120])])
+    let m3 : C15.Matcher MErr := fun d => (d ++ [51], [])
+    pipeline (fun i => .ok i) [m1, m2, m3] id [100] =
+      .error [10, 226, 156, 149, 32, 109, 97, 116, 99, 104, 46, 65, 110, 121, 40, 34, 97, 34, 41, 32, 45, 32, 120] ∧
+    pipeline (fun i => .ok i) [m1, m3] id [100] = .ok [100, 49, 51] := by
+  intro m1 m2 m3
+  constructor <;> rfl
+
+/-! ## 6. the tie to the driver -/
+
+/-- how `Driver.step` reads the items of an `ora doc merr` line -/
+def parseMerr (items : String) : Option (List (Text × Text × Text)) :=
+  (items.splitOn ";").mapM (fun it =>
+      match (it.splitOn ",").mapM unhex with
+      | some [m, p, r] => some (m, p, r)
+      | _ => none)
+
+/-- **the driver builds the message with `matcherErrMsg`**: on an `ora doc merr <items>` line
+whose items parse to `errs`, the pending document becomes `.error (message of errs)` -/
+theorem step_merr (s : DState) (line items : String) (errs : List (Text × Text × Text))
+    (ht : (line.splitOn " ").filter (· ≠ "") = ["ora", "doc", "merr", items])
+    (hp : parseMerr items = some errs) :
+    (step s line).1.doc = (matcherErrMsg errs).map Except.error := by
+  unfold parseMerr at hp
+  unfold step
+  simp only [ht]
+  generalize hgen : List.mapM (m := Option) (β := Text × Text × Text) _ (items.splitOn ";") = parsed
+  have hpe : parsed = some errs := by rw [← hgen]; exact hp
+  subst hpe
+  simp only
+  have := matcherErrMsg_eq errs
+  unfold matcherErrMsg at this
+  rw [matcherErrMsg_eq]
+  cases hq : errs.mapM (fun (x : Text × Text × Text) =>
+      sprintf Generated.matcherErrFmt [.s Generated.go_errorSymbol, .s x.1, .s x.2.1, .s x.2.2]) with
+  | none => rw [hq] at this; simp at this
+  | some ms =>
+    rw [hq] at this
+    simp only [Option.map_some, Option.some.injEq] at this
+    simp [this]
+
+/-- a pending `.error e` document reaches `matchEntry` / `matchStandalone` as `.error e` for
+each of the three document operations, so sections 1-3 apply to the driver's run -/
+theorem docOp_error (s : DState) (line c t : String) (cn tn : Nat) (cfg : Cfg) (nm e : Text)
+    (hc : c.toNat? = some cn) (hcfg : lookupCfg s cn = some cfg)
+    (ht : t.toNat? = some tn) (hn : lookupName s tn = some nm) (hd : s.doc = some (.error e)) :
+    (docOp s line "json" c t).1.w = (matchEntry s.w cfg s.caller nm tn .raw (.error e)).1 ∧
+    (docOp s line "yaml" c t).1.w = (matchEntry s.w cfg s.caller nm tn .escaped (.error e)).1 ∧
+    (docOp s line "sajson" c t).1.w =
+      (matchStandalone s.w (if cfg.extension = [] then { cfg with extension := Generated.saJSONExt } else cfg)
+        s.caller nm tn (.error e)).1 := by
+  have hcw : "Config.MatchStandaloneJSON: c.extension" ∉ Generated.configWrites := by decide
+  refine ⟨?_, ?_, ?_⟩ <;> simp [docOp, hc, hcfg, ht, hn, hd, hcw]
+
+/-- hence: a document operation whose pipeline failed leaves every file as it was -/
+theorem docOp_error_no_write (s : DState) (line c t : String) (cn tn : Nat) (cfg : Cfg) (nm e : Text)
+    (hc : c.toNat? = some cn) (hcfg : lookupCfg s cn = some cfg)
+    (ht : t.toNat? = some tn) (hn : lookupName s tn = some nm) (hd : s.doc = some (.error e)) :
+    (docOp s line "json" c t).1.w.fs = s.w.fs ∧ (docOp s line "yaml" c t).1.w.fs = s.w.fs ∧
+    (docOp s line "sajson" c t).1.w.fs = s.w.fs := by
+  obtain ⟨h1, h2, h3⟩ := docOp_error s line c t cn tn cfg nm e hc hcfg ht hn hd
+  rw [h1, h2, h3]
+  exact ⟨(matcher_error_no_write _ _ _ _ _ _ _).1, (matcher_error_no_write _ _ _ _ _ _ _).1,
+    (matcher_error_no_write_standalone _ _ _ _ _ _).1⟩
+
 end GoSnaps.C17
